@@ -186,7 +186,10 @@ func VerifH_C04_crash() {
 	case 5:
 		db.AddGraph("h")
 	case 6:
-		vKnown("C04/deletegraph-not-atomic", crash >= 1 && crash <= 9)
+		// the listed finding is about a graph that is still listed after the crash and has
+		// lost part of its keys; a graph that is no longer listed must have left nothing
+		// behind (C04.deleted-graph-leaves-no-elements is outside the region)
+		vKnownFor("C04/deletegraph-not-atomic", crash >= 1 && crash <= 9, "C04.inv.dst-entry-has-edge,C04.inv.src-entry-has-edge,C04.inv.edge-has-dst-entry,C04.inv.edge-has-src-entry,C04.inv.label-entry-names-edge,C04.inv.label-entry-names-vertex,C04.inv.vertex-in-label-index,C04.crash.usable-after-restart,C04.labelscan")
 		db.DeleteGraph("g")
 	case 7:
 		// re-adding an edge id with other endpoints (known to leave the old key triple, consistent though)
